@@ -171,6 +171,10 @@ def gen(rng, n, tier):  # noqa: F811
         if i % 4 == 0:   # one-cell-wide grids (nx or ny = 1): in the model's domain on this path (edge records are copied)
             c = M.gen_lb_thin(rng, tier)
             out.append(dict(kind='lbdy-thin', content=c, write=True))
+    # cloud/rain files, 3-field (< 4.3) and 5-field layouts, against the independent reference encoder/decoder
+    for i in range(max(2, n // 12)):
+        c = M.gen_cloud_rain(rng, tier)
+        out.append(dict(kind='met-cloud_rain', content=c, write=True))
     return out
 
 
